@@ -285,3 +285,9 @@ func Avail(c net.Conn) (data []byte, closed bool) {
 	x.rd.buf = x.rd.buf[:0]
 	return data, x.rd.closed || x.closed
 }
+
+// Drop discards the bytes in flight in this direction (they were sent but never arrive).
+func (d *Dir) Drop() { d.buf = nil }
+
+// Pending reports the number of undelivered bytes.
+func (d *Dir) Pending() int { return len(d.buf) }
